@@ -109,8 +109,9 @@ def resolve_param(p, kv, n, desc, others=()):
         inner = sorted(set(k for k in kv[p + 1:n] if a < k < b))
         eps = (desc[4] if len(desc) > 4 else 2.0 ** -24) * max(1.0, abs(b - a))
         if inner:
+            import math
             k0 = inner[desc[1] % len(inner)]
-            u = k0 + desc[3] * eps
+            u = k0 + desc[3] * eps if eps else math.nextafter(k0, math.inf if desc[3] > 0 else -math.inf)
             if a < u < b and u != k0 and not any(abs(u - k) < eps / 2 for k in kv if k != k0):
                 return u, "near"
         kind = "in"
